@@ -1344,6 +1344,7 @@ void IGXMLScanner::scanDocTypeDecl()
         , fMemoryManager
     );
     dtdScanner.setScannerInfo(this, &fReaderMgr, &fBufMgr);
+    ReaderStackJanitor janReaderStack(&fReaderMgr);
 
     //  If the next character is '[' then we have no external subset cause
     //  there is no system id, just the opening character of the internal
@@ -3132,6 +3133,7 @@ Grammar* IGXMLScanner::loadDTDGrammar(const InputSource& src,
         , fMemoryManager
     );
     dtdScanner.setScannerInfo(this, &fReaderMgr, &fBufMgr);
+    ReaderStackJanitor janReaderStack(&fReaderMgr);
 
     // Tell it its not in an include section
     dtdScanner.scanExtSubsetDecl(false, true);
